@@ -40,8 +40,8 @@ func c17Contents() [][]mockq.Rec {
 	veryDeepArr := strings.Repeat("[", 3000) + strings.Repeat("]", 3000)
 	return [][]mockq.Rec{
 		mk("\x00\xff\xfe\x80", "", "a", "\x1b[\x1b[;;;;m", strings.Repeat("é", 300), "<>{{}}%!s(MISSING)", "\"", "\\"),
-		mk(`{"a":{"b":[1,2`, deep, deepArr, `{"a":"b","a":{"a":"b"},"v":1e999,"":""}`, `{"_entry":5,"x y":"z"}`, `{"_entry":"{\"_entry\":1}","a":"\ud800"}`, `[1,2,3]`, `null`, `{"a":1}{"a":2}`, `{"tags":["a",null],"a":[null]}`, `{"a":{"b":[{"c":null},null,[null]]}}`),
-		mk(`d= a= b= sz= v=`, `d="" a="" v=""`, `{"d":"","a":"","v":""}`, `d=1s a=2 b=3 v=4`, `d a b v`),
+		mk(`{"a":{"b":[1,2`, deep, deepArr, `{"a":"b","a":{"a":"b"},"v":1e999,"":""}`, `{"_entry":5,"x y":"z"}`, `{"_entry":"{\"_entry\":1}","a":"\ud800"}`, `[1,2,3]`, `null`, `{"a":1}{"a":2}`, `{"tags":["a",null],"a":[null]}`, `{"a":{"b":[{"c":null},null,[null]]}}`, `{"__error__":"boom","n":"abc","v":"x"}`, `{"__error_details__":"d","n":"abc"}`),
+		mk(`d= a= b= sz= v=`, `d="" a="" v=""`, `{"d":"","a":"","v":""}`, `d=1s a=2 b=3 v=4`, `d a b v`, `__error__=boom n=abc v=x d=y`, `__error_details__=d n=abc v=x`),
 		mk(`a="x`, `==`, `a=b=c`, `"`, `a= b= =c`, "a=\x00 b=\xff", `k="\xzz"`, `a="unterminated \"`, strings.Repeat("k=v ", 500)),
 		mk(`v=1e999 d=99999999h sz=99999999999999999999EB`, `v=-0 d=-1ns sz=-1KB`, `v=9223372036854775808 d=9223372036854775807ns sz=18446744073709551616b`, `v=NaN d=NaN sz=NaN`, `v=Inf d=+Inf sz=0x10`, `v=1e-999 d=0.0000000001ns sz=1.5.5MB`, `{"v":1e999,"d":"9e99h","sz":"1e99gb","ip":"999.999.999.999"}`),
 		mk(`GET /a 200 10.0.0.1 ::ffff:1.2.3.4 1.2.3.4.5.6 ::::::`, `ip=::1 ip2=1::1::1 addr=256.1.1.1`, `a b c d e f`, `[x] "y"`, `<a> <b>`, `x 1`, `9.`, `1.2`, `:`, `f:`),
@@ -286,6 +286,15 @@ func c17Run(r *vkit.Run) {
 		`count_over_time({}[2562047h])`, `count_over_time({}[106751d])`, `count_over_time({}[292y])`, `count_over_time({}[293y])`, `count_over_time({}[9223372036s])`, `count_over_time({}[10s] offset 2562047h)`, `count_over_time({}[10s] offset -2562047h)`, `count_over_time({}[2562047h] offset 2562047h)`,
 		`rate({}[2562047h])`, `bytes_rate({}[1ns])`, `rate({} | logfmt | unwrap v [1ns])`, `vector(1e308) * vector(1e308)`, `vector(-1e308) - vector(1e308)`, `vector(9223372036854775807) % vector(0.5)`,
 		`{} | logfmt | v > 9223372036854775807`, `{} | logfmt | d > 2562047h`, `{} | logfmt | d > 2562048h`, `{} | logfmt | sz >= 8EiB`, `{} | logfmt | sz >= 16EiB`, `{} | logfmt | sz > 9223372036854775807B`,
+		// grouping by labels no record has, sorting before, between and after the labels the records carry
+		`sum by (zzz) (count_over_time({}[10s]))`, `sum by (A, zzz) (count_over_time({} | logfmt [10s]))`, `avg_over_time({} | unwrap v [10s]) by (zzz)`, `max_over_time({} | logfmt | unwrap v [10s]) by (b0, zzz, _)`,
+		`sum without (zzz) (count_over_time({}[10s]))`, `topk(1, count_over_time({}[10s])) by (zzz)`, `sum by (zzz) (sum by (a) (count_over_time({}[10s])))`, `sum by (zzz) (vector(1))`, `count_over_time({} | keep nosuch [10s]) by (zzz)`,
+		`sum by (zzz) (count_over_time({} | drop a, v, lat, msg [10s]))`, `quantile_over_time(0.5, {} | unwrap v [10s]) by (msh, zzz)`,
+		// a second failure on a line that already carries an error label (its own, or from an earlier stage whose details were removed)
+		`{} | json | n > 5`, `{} | logfmt | n > 5`, `{} | logfmt | n > 5 | d > 1s`, `{} | logfmt | v > 1 | drop __error_details__ | d > 1s`, `{} | json | keep __error__ | json | n > 1`, `{} | logfmt | v > 1 | label_format x=__error_details__ | d > 1s`,
+		`{} | logfmt | drop __error__ | n > 5 | v > 1`, `{} | unpack | json | n > 5`, `{} | json | line_format "{{ div 1 0 }}" | n > 5`, `{} | logfmt | label_format x="{{ div 1 0 }}" | n > 5`,
+		// comparisons that leave a step empty, instant and range, with and without bool, over vector() and over aggregations
+		`vector(2) > bool 3`, `vector(2) > 3`, `3 < bool vector(2)`, `sum(vector(2)) == bool 3`, `vector(2) > bool 3 or vector(1)`, `(vector(2) > bool 3) + 1`, `sum(count_over_time({}[10s])) > bool 1e9`, `count_over_time({}[10s]) > bool 1e9`, `vector(2) != bool 2`,
 		`{} | line_format "{{ repeat 1000000 .a }}"`, `{} | line_format "{{ trunc 9223372036854775807 .a }}"`, `{} | line_format "{{ substr 0 9223372036854775807 .a }}"`, `{} | line_format "{{ alignLeft 9223372036854775807 .a }}"`, `{} | line_format "{{ add 9223372036854775807 1 }}"`,
 	} {
 		visit(q)
@@ -326,7 +335,7 @@ func c17Run(r *vkit.Run) {
 	if r.WantSample() {
 		r.Sample(map[string]any{"token_sequence": "sum ( rate ( {a=\"b\"} [1s] ) )", "byte_string": "{\xff\"", "contents": len(c17Data)})
 	}
-	r.Note("bounds", fmt.Sprintf("queries: the %d-query positive corpus; delete/replace/insert of every one of %d vocabulary tokens at every position of every %dth corpus query; all token sequences of length <=%d over the vocabulary; all byte strings of length <=3 over 24 bytes; 90 hostile template/regex/pattern/path/parameter queries; 26 constructs with a string parameter x 26 degenerate strings. Every query that parses is evaluated instant and as a 5-step range query against %d log contents (arbitrary bytes, truncated and deeply nested JSON (3000-deep for the JSON-reading stages), malformed logfmt, extreme numbers/durations/sizes, odd IPs). Watchdog 20 s, a hang is believed only after a second 120 s run", len(cp), len(c17Vocab), step, L, len(c17Data)))
+	r.Note("bounds", fmt.Sprintf("queries: the %d-query positive corpus; delete/replace/insert of every one of %d vocabulary tokens at every position of every %dth corpus query; all token sequences of length <=%d over the vocabulary; all byte strings of length <=3 over 24 bytes; 120 hostile template/regex/pattern/path/parameter/grouping queries; 26 constructs with a string parameter x 26 degenerate strings. Every query that parses is evaluated instant and as a 5-step range query against %d log contents (arbitrary bytes, truncated and deeply nested JSON (3000-deep for the JSON-reading stages), malformed logfmt, extreme numbers/durations/sizes, odd IPs). Watchdog 20 s, a hang is believed only after a second 120 s run", len(cp), len(c17Vocab), step, L, len(c17Data)))
 }
 
 func c17Replay(r *vkit.Run, v vkit.Violation) *vkit.Violation {
